@@ -1,6 +1,6 @@
 SPEC = {
     "lean_props": "Hive.Props.C16",
-    "lean_namespace": ["Hive.WP"],
+    "lean_namespace": ["Hive.WP", "Hive.WPG"],
     "driver": "drv_c16",
     "harness": "c16",
     "harness_timeout": {"quick": 1500, "thorough": 6000},
